@@ -1,5 +1,6 @@
 """C19 — block fetch requests are never lost and go only to peers that have the block (structural mechanisms)."""
 from engine import query as Q
+from . import common
 from engine.terms import show, subterms
 from engine.guards import Atom, Walker, field_path, chain, Inliner
 
@@ -30,12 +31,20 @@ def rule_only_available(ctx):
     okw = False
     okpred = False
     oklow = False
+    chosen_cells = set()
     for g in waiters:
         T = ctx.T(g)
         cfg = ctx.cfg(g)
         e = Q.success_edges(ctx, g, lambda b: b[0] == "await" and b[1][0] == "call" and b[1][1].endswith("sync::wait_for"))
-        sets = [bi for bi, b in enumerate(g.blocks) for s in b["s"] if s["k"] == "assign" and s["r"]["k"] == "agg" and s["r"].get("variant") == "Some" and "block_number" in show(T.place(s["p"]))]
-        sets += [bi for bi, b in enumerate(g.blocks) for s in b["s"] if s["k"] == "assign" and T.place(s["p"]) == ("upvar", "block_number")]
+        # the chosen number is written into a captured Option cell of the enclosing function (identified by role, not by name)
+        sets = []
+        for bi, b in enumerate(g.blocks):
+            for s in b["s"]:
+                if s["k"] == "assign" and s["p"]["l"] == 1 and s["p"].get("pr") and T.place(s["p"])[0] == "upvar":
+                    v = T.rvalue(s["r"])
+                    if v[0] == "agg" and v[2] == "Some":
+                        sets.append(bi)
+                        chosen_cells.add(T.place(s["p"])[1])
         okw = bool(e) and bool(sets) and all(cfg.must_pass(b, e) for b in sets)
         for c in T.calls():
             if c["q"].endswith("sync::wait_for"):
@@ -45,7 +54,7 @@ def rule_only_available(ctx):
                     h = ctx.F.by_qname.get(cl[0][1], [None])[0]
                     rt = Inliner(ctx).ret_term(h) if h else None
                     okpred = rt is not None and rt[0] == "call" and rt[1] == BSS + "::contains"
-                okav = any(x in (("upvar", "available"),) for x in a)
+                okav = any(common.is_p(x, common.pnames(top, "watch::Receiver")) for x in a)
                 okpred = okpred and okav
     ctx.ob(R, "number chosen after availability", okw, "block_number := Some(n) is dominated by the completed wait for available.contains(n)" if okw else "a block number can be chosen for this peer without waiting for the peer to announce it", top.loc())
     ctx.ob(R, "wait predicate", okpred, "the wait is wait_for(available, |a| a.contains(n)) on the peer's announced BlockStoreState" if okpred else "availability predicate not recognised", top.loc())
@@ -62,7 +71,21 @@ def rule_only_available(ctx):
     for g in rem:
         T = ctx.T(g)
         muts = [(c["q"].rsplit("::", 1)[1], T.args_of(c)) for c in T.calls() if c["q"].startswith("std::collections::BTreeMap::") and c["q"].rsplit("::", 1)[1] in ("remove", "remove_entry", "pop_first", "pop_last", "retain", "clear", "split_off", "first_entry", "last_entry", "insert")]
-        ok = len(muts) == 1 and muts[0][0] in ("remove", "remove_entry") and muts[0][1][1] == ("upvar", "block_number")
+        key = muts[0][1][1] if muts and len(muts[0][1]) > 1 else None
+        # the key is a capture of a local of accept_block that derives from the cell the waiter task wrote
+        okkey = False
+        if key is not None and key[0] == "upvar":
+            body = ctx.body(QUEUE + "::accept_block")
+            LF = Q.LocalFlow(body)
+            vn = body.var_names()
+            for b in body.blocks:
+                for st in b["s"]:
+                    if st["k"] == "assign" and st["r"]["k"] == "agg" and st["r"].get("ak") == "closure" and st["r"].get("def") == g.path:
+                        for cap, op in zip(g.captures, st["r"]["ops"]):
+                            l = Q.LocalFlow._local_op(op)
+                            if cap["name"] == key[1] and l is not None:
+                                okkey = any(vn.get(x) in chosen_cells for x in LF.closure(l))
+        ok = len(muts) == 1 and muts[0][0] in ("remove", "remove_entry") and okkey
         ctx.ob(R, "removal takes exactly the announced number", ok, "x.%s(&block_number): the request removed is the one whose availability was awaited" % muts[0][0] if ok else
                "the acceptor removes %s from the pending map instead of exactly the block whose availability was awaited: a request can be handed to a peer that never announced that block" % [(m, [show(a)[:30] for a in args[1:]]) for m, args in muts], g.loc())
     # (c) the runner passes the per-connection state
@@ -83,8 +106,22 @@ def rule_atomic_accept(ctx):
     f = ctx.body(QUEUE + "::accept_block")
     T = ctx.T(f)
 
+    # the removal result: the Option local of accept_block that the removal closure captures mutably
+    res_locals = set()
+    for b in f.blocks:
+        for st in b["s"]:
+            if st["k"] == "assign" and st["r"]["k"] == "agg" and st["r"].get("ak") == "closure":
+                g = ctx.F.by_path.get(st["r"].get("def"))
+                if g is not None and any(cc["q"].endswith(("BTreeMap::remove_entry", "BTreeMap::remove", "BTreeMap::pop_first")) for cc in ctx.T(g).calls()):
+                    for op in st["r"]["ops"]:
+                        l = Q.LocalFlow._local_op(op)
+                        l = Q.LocalFlow(f)._root_borrow(l) if l is not None else None
+                        if l is not None and f.locals[l].s.startswith("std::option::Option<("):
+                            res_locals.add(l)
+    ctx.floor(R, "removal result cell", len(res_locals), 1)
+
     def is_res(t):
-        return t[0] == "var" and t[2] == "res"
+        return t[0] == "var" and t[1] in res_locals
     W = Walker(ctx, f, [Atom("res", "opt", is_res, ["None", "Some"])])
     oks = [bi for bi, b in enumerate(f.blocks) for s in b["s"] if s["k"] == "assign" and s["p"]["l"] in Q.ret_locals(f) and s["r"]["k"] == "agg" and s["r"].get("variant") == "Ok"]
     sim = [c["bb"] for c in T.calls() if c["q"].endswith("::send_if_modified")]
